@@ -50,3 +50,16 @@ theorem rangeMsgs_pushAll (st : List (Int × OutMsg)) (n : Int) (ms : List OutMs
     have e : n + (j : Int) + 1 + 1 = n + ((j + 1 : Nat) : Int) + 1 := by push_cast; omega
     simp only [rangeMsgs, h1, e, h2]
     rw [List.drop_eq_getElem_cons hj, List.take_succ_cons]
+
+theorem numbered_get (n : Int) (ms : List OutMsg) (h : Numbered n ms) (k : Nat) (hk : k < ms.length) :
+    ms[k].seq = n + k + 1 := by
+  induction ms generalizing n k with
+  | nil => simp at hk
+  | cons x xs ih =>
+    obtain ⟨h1, h2⟩ := h
+    cases k with
+    | zero => simpa using h1
+    | succ k =>
+      have := ih (n + 1) h2 k (by simpa using hk)
+      simp only [List.getElem_cons_succ]
+      rw [this]; push_cast; omega
